@@ -183,10 +183,19 @@ def _operators():
     O["select-store-i"] = ["arr", lambda L, f, k: L.m.Store(L.leaf("arr", k), L.m.Select(f, L.leaf("int", k)),
                                                              L.leaf("int", k + 1)),
                            lambda L, f, k: L.m.Store(f, L.m.Select(f, L.leaf("int", k)), L.leaf("int", k + 1))]
+    # stores at pairwise distinct *constant* indexes, read at yet another constant index (CLOSE below):
+    # read-over-write reasoning must not cost one step (or one stack frame) per store
+    O["store-const"] = ["arr", lambda L, f, k: L.m.Store(f, L.m.Int(k), L.leaf("int", k)), None]
+    O["store-const-samevalue"] = ["arr", lambda L, f, k: L.m.Store(f, L.m.Int(k), L.m.Int(7)), None]
     return O
 
 
 OPERATORS = _operators()
+# own Boolean closure of a family (default: Leaves.close)
+CLOSE = {
+    "store-const": lambda L, f, n: L.m.Equals(L.m.Select(f, L.m.Int(n + 7)), L.leaf("int", 1)),
+    "store-const-samevalue": lambda L, f, n: L.m.Equals(L.m.Select(f, L.m.Int(n + 7)), L.m.Int(7)),
+}
 QUICK_SKIP = ("plus-real", "minus-real-l", "minus-real-r", "times-real")   # thorough only
 
 
@@ -283,7 +292,7 @@ def build(opname, family, n, calls_limit=None):
             if k == n // 2:
                 mid = f
         b.f, b.mid = f, mid
-        b.F = L.close(sort, f)
+        b.F = CLOSE[opname](L, f, n) if opname in CLOSE else L.close(sort, f)
     finally:
         if calls_limit:
             MON.stop_calls()
